@@ -1,1 +1,233 @@
 //! Differential-driver access to crate-private items (group: flat). See /verif/DESIGN.md.
+//!
+//! Thin wrappers only: every function calls the production item it names (`IncarnationDb`,
+//! `MVMemory`, `Beneficiary`) and converts arguments / results to plain data. No production logic
+//! is repeated here.
+#![allow(missing_docs, missing_debug_implementations, unreachable_pub)]
+
+use crate::{
+    LocationAndType, MVMemory, MemoryEntry, MemoryValue, ReadVersion, TxVersion,
+    beneficiary::{Beneficiary, SpeculativeResult},
+    incarnation_db::{IncarnationAccesses, IncarnationDb},
+};
+use revm::{Database, DatabaseRef};
+use revm_context::result::{ExecutionResult, Output, ResultAndState, ResultGas, SuccessReason};
+use revm_primitives::{Address, B256, Bytes, U256};
+use revm_state::{AccountInfo, Bytecode, EvmState};
+
+/// `LocationAndType` as public plain data.
+#[derive(Clone, Debug, PartialEq, Eq, PartialOrd, Ord, Hash)]
+pub enum Loc {
+    Basic(Address),
+    Storage(Address, U256),
+    Reset(Address),
+    Code(Address),
+}
+
+/// `MemoryValue` as public plain data.
+#[derive(Clone, Debug)]
+pub enum Val {
+    Basic(Option<AccountInfo>),
+    Code(Bytecode),
+    Storage(U256),
+    Reset,
+}
+
+/// `ReadVersion` as public plain data (`Ben` carries the `Debug` text of the origin chain).
+#[derive(Clone, Debug, PartialEq, Eq, PartialOrd, Ord)]
+pub enum Ver {
+    Mv(usize, usize),
+    Ben(String),
+    Storage,
+}
+
+fn loc_in(loc: &Loc) -> LocationAndType {
+    match loc {
+        Loc::Basic(a) => LocationAndType::Basic(*a),
+        Loc::Storage(a, s) => LocationAndType::Storage(*a, *s),
+        Loc::Reset(a) => LocationAndType::StorageReset(*a),
+        Loc::Code(a) => LocationAndType::Code(*a),
+    }
+}
+
+fn loc_out(loc: &LocationAndType) -> Loc {
+    match loc {
+        LocationAndType::Basic(a) => Loc::Basic(*a),
+        LocationAndType::Storage(a, s) => Loc::Storage(*a, *s),
+        LocationAndType::StorageReset(a) => Loc::Reset(*a),
+        LocationAndType::Code(a) => Loc::Code(*a),
+    }
+}
+
+fn val_in(val: Val) -> MemoryValue {
+    match val {
+        Val::Basic(i) => MemoryValue::Basic(i),
+        Val::Code(c) => MemoryValue::Code(c),
+        Val::Storage(v) => MemoryValue::Storage(v),
+        Val::Reset => MemoryValue::StorageReset,
+    }
+}
+
+fn val_out(val: &MemoryValue) -> Val {
+    match val {
+        MemoryValue::Basic(i) => Val::Basic(i.clone()),
+        MemoryValue::Code(c) => Val::Code(c.clone()),
+        MemoryValue::Storage(v) => Val::Storage(*v),
+        MemoryValue::StorageReset => Val::Reset,
+    }
+}
+
+fn ver_out(ver: &ReadVersion) -> Ver {
+    match ver {
+        ReadVersion::MvMemory(v) => Ver::Mv(v.txid, v.incarnation),
+        ReadVersion::Beneficiary(v) => Ver::Ben(format!("{v:?}")),
+        ReadVersion::Storage => Ver::Storage,
+    }
+}
+
+/// A caller-owned multi-version memory and beneficiary aggregate.
+pub struct FlatEnv {
+    mv: MVMemory,
+    ben: Beneficiary,
+}
+
+/// One multi-version entry: location, txid, incarnation, value, estimate flag.
+pub type MvRow = (Loc, usize, usize, Val, bool);
+
+impl FlatEnv {
+    pub fn new(beneficiary: Address, anchor: Option<AccountInfo>, block_size: usize) -> Self {
+        Self { mv: MVMemory::default(), ben: Beneficiary::new(beneficiary, anchor, block_size) }
+    }
+
+    /// `IncarnationDb::new` over this memory and beneficiary and the caller's backing store.
+    pub fn db<'a, DB: DatabaseRef>(&'a self, backing: &'a DB) -> FlatDb<'a, DB> {
+        FlatDb { inner: IncarnationDb::new(backing, &self.mv, &self.ben) }
+    }
+
+    /// Direct `BTreeMap::insert` into the memory (what `publish_value` does, with chosen fields).
+    pub fn insert_raw(&self, loc: &Loc, txid: usize, incarnation: usize, val: Val, estimate: bool) {
+        self.mv
+            .entry(loc_in(loc))
+            .or_default()
+            .insert(txid, MemoryEntry::new(incarnation, val_in(val), estimate));
+    }
+
+    pub fn remove_raw(&self, loc: &Loc, txid: usize) -> bool {
+        self.mv.get_mut(&loc_in(loc)).is_some_and(|mut writes| writes.remove(&txid).is_some())
+    }
+
+    /// Every entry of the memory, sorted by (location, txid).
+    pub fn dump(&self) -> Vec<MvRow> {
+        let mut rows: Vec<MvRow> = Vec::new();
+        for item in self.mv.iter() {
+            for (txid, entry) in item.value() {
+                rows.push((
+                    loc_out(item.key()),
+                    *txid,
+                    entry.incarnation,
+                    val_out(&entry.data),
+                    entry.estimate,
+                ));
+            }
+        }
+        rows.sort_by(|a, b| (&a.0, a.1).cmp(&(&b.0, b.1)));
+        rows
+    }
+
+    pub fn ben_matches(&self, address: Address) -> bool {
+        self.ben.matches(address)
+    }
+
+    /// `Beneficiary::resolve_before` + `into_parts`; the version as its `Debug` text.
+    pub fn ben_resolve(&self, txid: usize) -> Result<(Option<AccountInfo>, String), usize> {
+        self.ben.resolve_before(txid).map(|read| {
+            let (account, version) = read.into_parts();
+            (account, format!("{version:?}"))
+        })
+    }
+
+    /// `Beneficiary::record_execution` on a settled result carrying `state`.
+    pub fn ben_record_state(&self, txid: usize, incarnation: usize, state: EvmState) -> bool {
+        let result = SpeculativeResult::settled(ResultAndState {
+            result: ExecutionResult::Success {
+                reason: SuccessReason::Stop,
+                gas: ResultGas::default(),
+                logs: Vec::new(),
+                output: Output::Call(Bytes::new()),
+            },
+            state,
+        });
+        self.ben.record_execution(&TxVersion::new(txid, incarnation), &result)
+    }
+
+    pub fn ben_record_estimate(&self, txid: usize, incarnation: usize) -> bool {
+        self.ben.record_estimate(&TxVersion::new(txid, incarnation))
+    }
+}
+
+/// `IncarnationAccesses` as public plain data (sorted).
+#[derive(Clone, Debug)]
+pub struct Accesses {
+    pub reads: Vec<(Loc, Ver)>,
+    pub writes: Vec<Loc>,
+    pub blocking: Vec<usize>,
+    pub blocked_by_beneficiary: bool,
+    pub is_blocked: bool,
+}
+
+fn accesses_out(acc: IncarnationAccesses) -> Accesses {
+    let is_blocked = acc.is_blocked();
+    let mut reads: Vec<(Loc, Ver)> =
+        acc.read_set.iter().map(|(l, v)| (loc_out(l), ver_out(v))).collect();
+    reads.sort();
+    let mut writes: Vec<Loc> = acc.write_set.iter().map(loc_out).collect();
+    writes.sort();
+    let mut blocking: Vec<usize> = acc.blocking_txs.into_iter().collect();
+    blocking.sort_unstable();
+    Accesses {
+        reads,
+        writes,
+        blocking,
+        blocked_by_beneficiary: acc.blocked_by_beneficiary,
+        is_blocked,
+    }
+}
+
+/// The real `IncarnationDb`.
+pub struct FlatDb<'a, DB: DatabaseRef> {
+    inner: IncarnationDb<'a, DB>,
+}
+
+impl<DB: DatabaseRef> FlatDb<'_, DB> {
+    pub fn begin(&mut self, txid: usize, incarnation: usize) {
+        self.inner.begin_incarnation(TxVersion::new(txid, incarnation));
+    }
+
+    pub fn beneficiary_matches(&self, address: Address) -> bool {
+        self.inner.beneficiary_matches(address)
+    }
+
+    pub fn basic(&mut self, address: Address) -> Result<Option<AccountInfo>, DB::Error> {
+        Database::basic(&mut self.inner, address)
+    }
+
+    pub fn storage(&mut self, address: Address, index: U256) -> Result<U256, DB::Error> {
+        Database::storage(&mut self.inner, address, index)
+    }
+
+    pub fn code_by_hash(&mut self, hash: B256) -> Result<Bytecode, DB::Error> {
+        Database::code_by_hash(&mut self.inner, hash)
+    }
+
+    pub fn block_hash(&mut self, number: u64) -> Result<B256, DB::Error> {
+        Database::block_hash(&mut self.inner, number)
+    }
+
+    pub fn finish(&mut self, changes: &EvmState) -> Accesses {
+        accesses_out(self.inner.finish_incarnation(changes))
+    }
+
+    pub fn discard(&mut self) -> Accesses {
+        accesses_out(self.inner.discard_incarnation())
+    }
+}
